@@ -443,6 +443,14 @@ theorem Bay.propagate_sync {strong : Bool} {b bF : Bay} {em : List (Nat × Value
     ⟨hcur _, hcur _, fun _ c _ => hcur c, fun i c => by rw [hcbs], hselOf mi⟩
   exact ⟨wfF, hclean, hmux.trans (Bay.dirtyPhase_raw wf h1).1, v.weak hweak1, v.sync hsync1 (fun _ _ _ hp => hp)⟩
 
+theorem Bay.propagate_wf {b bF : Bay} {em : List (Nat × Value)} (wf : b.WF)
+    (h : b.propagate = .ok (bF, em)) : bF.WF ∧ bF.Clean ∧ bF.muxes = b.muxes := by
+  obtain ⟨b1, b2, h1, h2, rfl, _⟩ := Bay.propagate_ok h
+  have wf1 : b1.WF := (Bay.dirtyPhase_rule (fun _ _ => True) (by intros; trivial) _ b 0 b1 wf trivial
+    (Nat.zero_le _) h1).1
+  obtain ⟨wfF, hcl, _, _, _, hmx⟩ := Bay.flush_result wf1 h2
+  exact ⟨wfF, hcl, hmx.trans (Bay.dirtyPhase_raw wf h1).1⟩
+
 theorem Bay.propagate_raw {b bF : Bay} {em : List (Nat × Value)} (wf : b.WF)
     (h : b.propagate = .ok (bF, em)) (c : Nat)
     (hc : ∀ (mj : Nat) (m' : Mux), b.muxes[mj]? = some m' → m'.out ≠ c) :
@@ -453,6 +461,45 @@ theorem Bay.propagate_raw {b bF : Bay} {em : List (Nat × Value)} (wf : b.WF)
   obtain ⟨_, _, hcur, _⟩ := Bay.flush_result wf1 h2
   rw [hcur, (Bay.dirtyPhase_raw wf h1).2 c hc]
 
+
+/-! ### `Weak` alone survives everything (muxes never synced yet) -/
+
+theorem Bay.runCb_weak {b b' : Bay} {cb : Cb} {d mi : Nat} {m : Mux} (wf : b.WF)
+    (hm : b.muxes[mi]? = some m) (hfr : b.Frame mi m) (hweak : b.Weak mi m)
+    (hmem : cb ∈ b.cbsOf d) (hrun : b.runCb cb = .ok b') : b'.Weak mi m := by
+  by_cases hown : cb.mux = mi
+  · cases cb with
+    | muxSelect mj =>
+      simp only [Cb.mux] at hown; subst hown
+      exact (Bay.cbSelect_sync wf hm hfr hweak hrun).1
+    | muxInput mj i0 =>
+      simp only [Cb.mux] at hown; subst hown
+      obtain ⟨_, hcbs, hsl, _, _⟩ := Bay.cbInput_step wf hm hfr hmem hrun
+      intro i ⟨c, hic, hc⟩
+      rw [Bay.selOf_congr hsl]
+      exact hweak i ⟨c, hic, by rw [← Bay.cbsOf_congr hcbs]; exact hc⟩
+  · exact (Bay.runCb_other wf hfr hown hrun).weak hweak
+
+theorem Bay.propagate_weak {b bF : Bay} {em : List (Nat × Value)} {mi : Nat} {m : Mux}
+    (wf : b.WF) (hm : b.muxes[mi]? = some m) (hfr : b.Frame mi m) (hweak : b.Weak mi m)
+    (h : b.propagate = .ok (bF, em)) : bF.Weak mi m := by
+  obtain ⟨b1, b2, h1, h2, rfl, _⟩ := Bay.propagate_ok h
+  let P : Bay → Nat → Prop := fun b2 _ => b2.muxes[mi]? = some m ∧ b2.Frame mi m ∧ b2.Weak mi m
+  have hchan : ∀ (b2 : Bay) (k c : Nat) (b3 : Bay), b2.WF → P b2 k → b2.dirty[k]? = some c →
+      b2.propChan (b2.chanFuel c) c 0 = .ok b3 → P b3 (k + 1) := by
+    intro b2 k c b3 wf2 hp _ hrun
+    exact (Bay.propChan_rule c (fun b4 _ => P b4 0)
+      (by
+        intro b4 j cb b5 wf4 ⟨h4m, h4f, h4w⟩ hcb hrun4 _
+        obtain ⟨_, _, hmux, _⟩ := Bay.runCb_frame wf4 hrun4
+        exact ⟨by rw [hmux]; exact h4m, h4f.congr hmux,
+          Bay.runCb_weak wf4 h4m h4f h4w (List.mem_of_getElem? hcb) hrun4⟩)
+      _ b2 0 b3 wf2 hp (Nat.zero_le _) hrun).2.2
+  obtain ⟨wf1, _, _, hw1⟩ := Bay.dirtyPhase_rule P hchan _ b 0 b1 wf ⟨hm, hfr, hweak⟩ (Nat.zero_le _) h1
+  obtain ⟨_, _, _, hcbs, hselOf, _⟩ := Bay.flush_result wf1 h2
+  intro i ⟨c, hic, hc⟩
+  rw [hselOf]
+  exact hw1 i ⟨c, hic, by rw [← hcbs]; exact hc⟩
 
 /-! ### the writes of an event -/
 
@@ -483,6 +530,13 @@ theorem Bay.Writes.inv {ok : Nat → Prop} {b b1 : Bay} (wf : b.WF) (h : Bay.Wri
         · rw [he] at hd ⊢; exact h5 c' hd
         · rw [ht] at hd; cases hd
       · rw [Bay.write_chan_ne hw hcc] at hd ⊢; exact h5 c' hd
+
+theorem Bay.Writes.weak {ok : Nat → Prop} {b b1 : Bay} {mi : Nat} {m : Mux} (wf : b.WF)
+    (hweak : b.Weak mi m) (h : Bay.Writes ok b b1) : b1.Weak mi m := by
+  obtain ⟨_, h1, h2, _⟩ := h.inv wf
+  intro i ⟨c, hic, hc⟩
+  rw [Bay.selOf_congr h2]
+  exact hweak i ⟨c, hic, by rw [← Bay.cbsOf_congr h1]; exact hc⟩
 
 /-- After the writes of an event (none of them to the mux output) a mux that
     was in sync satisfies the precondition of `propagate_sync`: either its
